@@ -314,7 +314,7 @@ func runC11(e *Env) {
 				e.R.Trace(1)
 			}
 			e.R.Transition(1)
-			if ch.Deviations() == 1 && (e.Thorough || bi%4 == 0) {
+			if ch.Deviations() == 1 && (e.Thorough || bi%2 == 0) {
 				cc := c11Case{Mode: b.mode, Key: b.key, Base: b.toks, Path: "cli"}
 				c11Eval(e, &cc, mc.NewReplay(ch.Choices()), true)
 			}
@@ -322,7 +322,7 @@ func runC11(e *Env) {
 		execs += st.Executions
 		e.R.State(fmt.Sprint("sentence:", bi))
 	}
-	e.R.AddPart(ev.Part{Name: "spelling-variants", Enumerated: fmt.Sprintf("%d base sentences (accepted token sequences <= %d tokens in both notations + 4 longer ones); all variants with <= %d deviations (in thorough 3 for sentences <= 8 tokens, 2 beyond, full product for sentences of 4 tokens); real binary for the 1-deviation variants of every 4th sentence (quick) / all (thorough)", len(bases), maxTok, bound), Executions: execs, States: int64(len(bases)), Transitions: execs, Exhaustive: true, Note: fmt.Sprintf("%d generated variants do not read back as the same tokens and were skipped", atomic.LoadInt64(&c11NotPreserving))})
+	e.R.AddPart(ev.Part{Name: "spelling-variants", Enumerated: fmt.Sprintf("%d base sentences (accepted token sequences <= %d tokens in both notations + 4 longer ones); all variants with <= %d deviations (in thorough 3 for sentences <= 8 tokens, 2 beyond, full product for sentences of 4 tokens); real binary for the 1-deviation variants of every 2nd sentence (quick) / all (thorough)", len(bases), maxTok, bound), Executions: execs, States: int64(len(bases)), Transitions: execs, Exhaustive: true, Note: fmt.Sprintf("%d generated variants do not read back as the same tokens and were skipped", atomic.LoadInt64(&c11NotPreserving))})
 	if len(bases) > 0 {
 		b := bases[len(bases)-4]
 		e.R.Sample(map[string]any{"canonical": c11Build(b.toks, mc.NewReplay(nil)), "variant_example": "C\t♯ _m7 [01 ,\n2]"})
